@@ -135,6 +135,14 @@ for i in range(n):
 for d in DEEP:
     for j in range(min(n, 8)):
         history([d, j], ["parse", "both"])
+# line forms whose handling goes through a slow path the first time they are seen in a process (an indented table-header
+# mark outside a table, indented cell marks): the same page twice, and after each other
+for extra in (" !x", "a\n !b c\n !d", " | c\n !! d", "{|\n ! h\n|}\n !z"):
+    PAGES.append(extra)
+    for mode_ in ("both", "parse"):
+        history([len(PAGES) - 1, len(PAGES) - 1], [mode_, mode_])
+    if len(PAGES) >= 2:
+        history([len(PAGES) - 2, len(PAGES) - 1, len(PAGES) - 2], ["parse", "parse", "parse"])
 # several calls on ONE started page, with different option sets: the expansion and the tree of a later call equal those
 # of a fresh context that starts the same page and makes only that call, and so do the messages that call adds
 OPTSETS = [{}, {"expand_invoke": False}, {"expand_parserfns": False}, {"pre_expand": True}]
